@@ -7,6 +7,7 @@ import (
 	"encoding/json"
 	"encoding/xml"
 	"fmt"
+	"io"
 	"math/rand"
 	"strings"
 	"sync"
@@ -17,8 +18,8 @@ import (
 )
 
 type c10Op struct {
-	Op   string `json:"op"`             // send raw ack peer_r session
-	Kind int    `json:"kind,omitempty"` // send: 0 stanza 1 stanza.SMRequest 2 stanza.SMAnswer 3 *stanza.SMRequest 4 *stanza.SMAnswer
+	Op   string `json:"op"`             // send raw ack peer_r session attempt resume
+	Kind int    `json:"kind,omitempty"` // send: 0 stanza 1 stanza.SMRequest 2 stanza.SMAnswer 3 *stanza.SMRequest 4 *stanza.SMAnswer 5 a nil packet
 	Body string `json:"body,omitempty"` // stanza body / raw string (a raw <r/> or <a/> of stream management is recognised by c10RawKind)
 	H    int    `json:"h,omitempty"`
 	Big  bool   `json:"big,omitempty"`  // ack: h = 2^63 + H (beyond the signed range)
@@ -29,6 +30,10 @@ type c10Op struct {
 	// the server's <enabled/> carries this resume attribute (spellings as c10In.Resume)
 	Resume string `json:"resume,omitempty"`
 	NoID   bool   `json:"noid,omitempty"` // session: that <enabled/> carries no id (the id is only needed for resumption)
+	// attempt: a connection attempt of the client that fails: "features" (the server's header, then the connection is
+	// cut before the features), "tls" (STARTTLS offered and required, cut while <proceed/> is awaited), "resumed"
+	// (authenticated, <resume/> written, cut before the answer). resume (op): an attempt on which the server resumes the session.
+	Mode string `json:"mode,omitempty"`
 }
 type c10In struct {
 	Ops        []c10Op `json:"ops"`
@@ -71,6 +76,16 @@ func c10B(b bool) int64 {
 	return 0
 }
 
+// secure: the client insists on TLS (a history with an attempt that fails during STARTTLS)
+func (in c10In) secure() bool {
+	for _, o := range in.Ops {
+		if o.Op == "attempt" && o.Mode == "tls" {
+			return true
+		}
+	}
+	return false
+}
+
 type c10 struct{}
 
 func init() { register(c10{}) }
@@ -80,7 +95,7 @@ func (c10) RunFn() string { return "run_C10" }
 func (c10) Workers() int  { return 8 }
 func (c10) Journal() bool { return true }
 func (c10) Rule() string {
-	return "random histories (0-40 ops) over Send(stanza), Send(<r/>), Send(<a/>) by value and by pointer, the server's <r/> answered by the real receive loop, SendRaw(stanza string), SendRaw of a raw stream-management <r/> or <a/> (several spellings), sends whose write the transport refuses, and server <a h/> with h below, equal to, above the number sent, stale, repeated and beyond the signed range (h is unsigned on the wire) through the real Client.Send/SendRaw and Router.route(SMAnswer) on a recording transport, a sixth of them on a session negotiated by the real Client.Connect (its initial presence is the first stanza of the session) with the server's <enabled/> carrying resume='true', other spellings of true, false, no attribute or garbage (whether resumption is granted makes no difference: stream management is active and every stanza is held), acknowledgements whose retransmission is cut short by a refused write at every position (what was not written stays held, no <r/>), and new connections of the same client in the middle of a history, up to three, after sessions that had a stream-management id (resumption is tried and refused) and after sessions whose <enabled/> carried none (nothing to resume with) (the old session is not resumed: a new session, numbered from 1, holding whatever this or any earlier <enabled/> said about resumption); after every op the queue (ids, payloads) and the bytes written are compared; plus concurrent senders (8 goroutines) and two senders of which the first is stalled by the transport between numbering and writing (the sequence numbers must follow the order on the wire), followed by acknowledgements, and acknowledgements piling up on their own goroutines behind a retransmission stalled in a blocking write (only what is held afterwards is compared); distinct = op-kind/h-class sequence; non-trivial = at least one ack with stanzas held"
+	return "random histories (0-40 ops) over Send(stanza), Send(<r/>), Send(<a/>) by value and by pointer, the server's <r/> answered by the real receive loop, SendRaw(stanza string), SendRaw of a raw stream-management <r/> or <a/> (several spellings), sends whose write the transport refuses, and server <a h/> with h below, equal to, above the number sent, stale, repeated and beyond the signed range (h is unsigned on the wire) through the real Client.Send/SendRaw and Router.route(SMAnswer) on a recording transport, a sixth of them on a session negotiated by the real Client.Connect (its initial presence is the first stanza of the session) with the server's <enabled/> carrying resume='true', other spellings of true, false, no attribute or garbage (whether resumption is granted makes no difference: stream management is active and every stanza is held), acknowledgements whose retransmission is cut short by a refused write at every position (what was not written stays held, no <r/>), and new connections of the same client in the middle of a history, up to three, after sessions that had a stream-management id (resumption is tried and refused) and after sessions whose <enabled/> carried none (nothing to resume with) (the old session is not resumed: a new session, numbered from 1, holding whatever this or any earlier <enabled/> said about resumption), sends of what is not a stanza between the stanzas (white space, the empty string, a nil packet, client-state nonzas, elements of a foreign namespace: written, never held or numbered - the numbers stay in step with a server that counts stanzas), and outages: one to three connection attempts of the same client that fail (cut before the features, while <proceed/> of a required STARTTLS is awaited, while the answer to <resume/> is awaited), acknowledgements of the old connection applied meanwhile (nothing can be written), then the session resumed by the real Client.connect (<resumed/>) - every stanza held before the outage is still held under its number and is retransmitted or discarded by the next acknowledgement; after every op the queue (ids, payloads) and the bytes written are compared; plus concurrent senders (8 goroutines) and two senders of which the first is stalled by the transport between numbering and writing (the sequence numbers must follow the order on the wire), followed by acknowledgements, and acknowledgements piling up on their own goroutines behind a retransmission stalled in a blocking write (only what is held afterwards is compared); distinct = op-kind/h-class sequence; non-trivial = at least one ack with stanzas held"
 }
 
 func (c10) Decode(raw json.RawMessage) (interface{}, error) {
@@ -128,6 +143,13 @@ func c10Witnesses() []interface{} {
 		// a new connection in the middle: a new session numbered from 1; once resumption was not granted nothing is held any more
 		c10In{Ops: []c10Op{m("m1"), m("m2"), {Op: "session", Resume: "true"}, m("m3"), {Op: "ack", H: 0}, {Op: "session", Resume: "-"}, m("m4"), {Op: "ack", H: 0}, {Op: "session", Resume: "true"}, m("m5"), {Op: "ack", H: 0}}},
 		c10In{Connect: true, Ops: []c10Op{m("m1"), {Op: "session"}, {Op: "ack", H: 1}, m("m2"), {Op: "send", Kind: 1}, {Op: "ack", H: 0}}},
+		// only stanzas are held and numbered: nonzas, foreign elements, white space, the empty string, a nil packet are written only
+		c10In{Ops: []c10Op{m("m1"), {Op: "raw", Body: "<inactive xmlns='urn:xmpp:csi:0'/>"}, {Op: "raw", Body: " "}, m("m2"), {Op: "ack", H: 1}, {Op: "raw", Body: ""}, {Op: "send", Kind: 5}, {Op: "raw", Body: "<message xmlns='jabber:server' id='f'/>"}, {Op: "raw", Body: "<presence/>"}, {Op: "ack", H: 2}, {Op: "ack", H: 3}}},
+		c10In{Ops: []c10Op{{Op: "raw", Body: "<message id='t1'/><message id='t2'/>"}, {Op: "raw", Body: "<active xmlns='urn:xmpp:csi:0'/>", Fail: true}, m("m1"), {Op: "ack", H: 1}}},
+		// held stanzas survive connection attempts that fail and are there when the session is resumed
+		c10In{Ops: []c10Op{m("m1"), m("m2"), {Op: "attempt", Mode: "features"}, {Op: "resume"}, {Op: "ack", H: 1}, m("m3"), {Op: "ack", H: 3}}},
+		c10In{Connect: true, Ops: []c10Op{m("m1"), {Op: "attempt", Mode: "resumed"}, {Op: "ack", H: 1}, {Op: "attempt", Mode: "tls"}, {Op: "attempt", Mode: "features"}, {Op: "resume"}, {Op: "ack", H: 1}, {Op: "ack", H: 2}}},
+		c10In{Ops: []c10Op{m("m1"), {Op: "attempt", Mode: "tls"}, {Op: "session"}, m("m2"), {Op: "attempt", Mode: "resumed"}, {Op: "resume"}, {Op: "ack", H: 0}}},
 		// sessions without a stream-management id (nothing to resume with): the next session of the client is still a new one,
 		// numbered from 1, holding nothing of the one before
 		c10In{Connect: true, NoID: true, Resume: "-", Ops: []c10Op{m("m1"), {Op: "ack", H: 2}, {Op: "session", NoID: true, Resume: "-"}, m("m2"), {Op: "ack", H: 1}}},
@@ -171,8 +193,34 @@ func (c10) Gen(r *rand.Rand, tier string) []interface{} {
 			in.NoID = r.Intn(4) == 0
 		}
 		ops := make([]c10Op, 0, l)
+		lastNoID := in.NoID
+		outages := 0
+		if r.Intn(4) == 0 {
+			outages = 1 + r.Intn(2)
+		}
 		for j := 0; j < l; j++ {
 			fail := r.Intn(14) == 0
+			if outages > 0 && !lastNoID && r.Intn(l) < 3 {
+				// the connection is lost: one to three attempts fail (acknowledgements of the old connection may still
+				// be applied meanwhile), then the session is resumed - or the server has forgotten it and a new one is bound
+				outages--
+				modes := []string{"features", "tls", "resumed"}
+				for k := 1 + r.Intn(3); k > 0; k-- {
+					ops = append(ops, c10Op{Op: "attempt", Mode: modes[r.Intn(3)]})
+					if r.Intn(4) == 0 {
+						ops = append(ops, c10Op{Op: "ack", H: r.Intn(sent + 2)})
+					}
+				}
+				if r.Intn(5) == 0 {
+					o := c10Op{Op: "session", NoID: r.Intn(3) == 0}
+					lastNoID = o.NoID
+					ops = append(ops, o)
+					sent = 0
+				} else {
+					ops = append(ops, c10Op{Op: "resume"})
+				}
+				continue
+			}
 			if sessions > 0 && r.Intn(l) < 3 {
 				sessions--
 				o := c10Op{Op: "session", Resume: c10Resumes[r.Intn(len(c10Resumes))]}
@@ -180,6 +228,7 @@ func (c10) Gen(r *rand.Rand, tier string) []interface{} {
 					o.Resume = ""
 				}
 				o.NoID = r.Intn(2) == 0
+				lastNoID = o.NoID
 				ops = append(ops, o)
 				sent = 0
 				continue
@@ -195,6 +244,18 @@ func (c10) Gen(r *rand.Rand, tier string) []interface{} {
 					ops = append(ops, c10Op{Op: "raw", Body: c10RawSM[r.Intn(len(c10RawSM))], Fail: fail && r.Intn(2) == 0})
 					break
 				}
+				if r.Intn(4) == 0 {
+					// nothing the server counts: written, never held
+					ops = append(ops, c10Op{Op: "raw", Body: c10RawOther[r.Intn(len(c10RawOther))], Fail: fail && r.Intn(2) == 0})
+					break
+				}
+				if r.Intn(5) == 0 {
+					ops = append(ops, c10Op{Op: "raw", Body: c10RawStanza[r.Intn(len(c10RawStanza))], Fail: fail})
+					if !fail {
+						sent++
+					}
+					break
+				}
 				ops = append(ops, c10Op{Op: "raw", Body: fmt.Sprintf("<message id='r%d'><body>%s</body></message>", j, "raw"), Fail: fail})
 				if !fail && holding {
 					sent++
@@ -203,7 +264,7 @@ func (c10) Gen(r *rand.Rand, tier string) []interface{} {
 				if r.Intn(2) == 0 {
 					ops = append(ops, c10Op{Op: "peer_r"})
 				} else {
-					ops = append(ops, c10Op{Op: "send", Kind: 1 + r.Intn(4), H: r.Intn(4)})
+					ops = append(ops, c10Op{Op: "send", Kind: 1 + r.Intn(5), H: r.Intn(4)})
 				}
 			default:
 				var h int
@@ -302,15 +363,16 @@ func c10Negotiation(refusedResume, enabled bool, resume string, noID bool) strin
 // c10Client: a client on the recording stub with stream management active. connect=false: the session is installed
 // through the hooks and the real receive loop started; connect=true: the public Client.Connect negotiates it (and
 // starts the receive loop itself). skip = number of writes that belong to the negotiation (up to <enable/>).
-func c10Client(connect bool, resume string, noID bool) (c *xmpp.Client, st *stubTransport, router *xmpp.Router, skip int, err error) {
+func c10Client(connect bool, resume string, noID, secure bool) (c *xmpp.Client, st *stubTransport, router *xmpp.Router, skip int, err error) {
 	script := clientHeader
 	if connect {
 		script = c10Negotiation(false, true, resume, noID)
 	}
 	st = newStub([][]byte{[]byte(script)}, nil)
 	st.feed = make(chan []byte, 4)
+	st.secure = secure // secure: the client insists on TLS and its connections have it from the start (except an attempt that fails there)
 	router = xmpp.NewRouter()
-	cfg := &xmpp.Config{TransportConfiguration: xmpp.TransportConfiguration{Address: "localhost:1"}, Jid: "u@localhost", Credential: xmpp.Password("p"), StreamManagementEnable: true, Insecure: true, KeepaliveInterval: time.Hour}
+	cfg := &xmpp.Config{TransportConfiguration: xmpp.TransportConfiguration{Address: "localhost:1"}, Jid: "u@localhost", Credential: xmpp.Password("p"), StreamManagementEnable: true, Insecure: !secure, KeepaliveInterval: time.Hour}
 	cfg.VerifSetSMResume(true)
 	c, err = xmpp.NewClient(cfg, router, func(error) {})
 	if err != nil {
@@ -355,31 +417,63 @@ func c10AfterEnable(st *stubTransport) (skip int) {
 	return
 }
 
-// c10NewSession: the client connects again on a new connection (the same Session object, as Client.connect keeps it,
-// bound to the new transport). The server offers stream management, refuses to resume the session the client still
-// has an id of, binds, and - when the harness expects the client to ask (wantEnable) - answers <enable/> with
-// <enabled/> carrying the given resume attribute. The real receive loop is started on the new connection.
-func c10NewSession(c *xmpp.Client, hadID, wantEnable bool, resume string, noID bool) (st *stubTransport, skip int, err error) {
-	st = newStub([][]byte{[]byte(c10Negotiation(hadID, wantEnable, resume, noID))}, nil)
-	st.feed = make(chan []byte, 4)
-	old := c.Session.SMState
+// c10Rebind: the next connection of the client: a new stub playing script, and the client's Session object (the one
+// Client.connect keeps across connections) bound to it. A client left without session object starts from nothing, as
+// Client.connect does then. live: the connection stays up after the script (input arrives through feed); otherwise it
+// is cut there.
+func c10Rebind(c *xmpp.Client, script string, secure, live bool) *stubTransport {
+	st := newStub([][]byte{[]byte(script)}, nil)
+	st.secure = secure
+	if live {
+		st.feed = make(chan []byte, 4)
+	} else {
+		st.endErr = io.EOF
+	}
+	var old xmpp.SMState
+	if c.Session != nil {
+		old = c.Session.SMState
+	}
 	xmpp.VerifSetTransport(c, st)
 	xmpp.VerifSetSession(c, old)
+	return st
+}
+
+// c10ConnectWithin: Client.connect on the current transport, given up after 3 s (the client waits for an answer to
+// something the scripted server was not asked in the harness's account of the client: the connection is ended then).
+func c10ConnectWithin(c *xmpp.Client, st *stubTransport) (err error) {
 	done := make(chan error, 1)
 	go func() { done <- xmpp.VerifClientConnect(c) }()
 	select {
 	case err = <-done:
 	case <-time.After(3 * time.Second):
-		// the client waits for an answer to something this server was not asked in the harness's account of the
-		// client (an <enable/> from a client that does not hold any more, a second <resume/>, ...): end the connection
 		st.mu.Lock()
 		feed := st.feed
 		st.feed = nil // the caller must not close it again
 		st.mu.Unlock()
-		close(feed)
+		if feed != nil {
+			close(feed)
+		}
 		err = fmt.Errorf("the negotiation does not finish: the client waits for an answer the scripted server has no reason to give (%v)", <-done)
 	}
-	if err != nil {
+	return
+}
+
+func c10Wrote(st *stubTransport, local string) (at int) {
+	for i, w := range st.snapshotWrites() {
+		if ns, e := parseCanon([]byte(w.Data)); e == nil && len(ns) == 1 && ns[0].Name.Space == nsSM && ns[0].Name.Local == local {
+			at = i + 1
+		}
+	}
+	return
+}
+
+// c10NewSession: the client connects again on a new connection. The server offers stream management, refuses to
+// resume the session the client still has an id of, binds, and - when the harness expects the client to ask
+// (wantEnable) - answers <enable/> with <enabled/> carrying the given resume attribute. The real receive loop is
+// started on the new connection.
+func c10NewSession(c *xmpp.Client, hadID, wantEnable bool, resume string, noID, secure bool) (st *stubTransport, skip int, err error) {
+	st = c10Rebind(c, c10Negotiation(hadID, wantEnable, resume, noID), secure, true)
+	if err = c10ConnectWithin(c, st); err != nil {
 		return
 	}
 	if c.Session == nil {
@@ -387,7 +481,7 @@ func c10NewSession(c *xmpp.Client, hadID, wantEnable bool, resume string, noID b
 		return
 	}
 	skip = len(st.snapshotWrites())
-	if at := c10AfterEnable(st); wantEnable && at == 0 {
+	if at := c10Wrote(st, "enable"); wantEnable && at == 0 {
 		err = fmt.Errorf("the client is configured with stream management and the server offers it, but the client did not ask for it (<enable/>) on this connection")
 	} else if !wantEnable && at != 0 {
 		err = fmt.Errorf("unexpected <enable/> on the new connection")
@@ -395,6 +489,43 @@ func c10NewSession(c *xmpp.Client, hadID, wantEnable bool, resume string, noID b
 		skip = at
 	}
 	go xmpp.VerifRecv(c, make(chan struct{}))
+	return
+}
+
+const c10Mechanisms = "<mechanisms xmlns='urn:ietf:params:xml:ns:xmpp-sasl'><mechanism>PLAIN</mechanism></mechanisms>"
+
+// up to the features after authentication
+const c10Authenticated = clientHeader + "<stream:features>" + c10Mechanisms + "</stream:features>" +
+	"<success xmlns='urn:ietf:params:xml:ns:xmpp-sasl'/>" + clientHeader +
+	"<stream:features><bind xmlns='urn:ietf:params:xml:ns:xmpp-bind'/><sm xmlns='urn:xmpp:sm:3'/></stream:features>"
+
+// c10FailedAttempt: a connection attempt that fails because the connection is cut at the given point. It must fail.
+func c10FailedAttempt(c *xmpp.Client, mode string, secure bool) (st *stubTransport, err error) {
+	switch mode {
+	case "tls": // STARTTLS offered (the client insists on TLS), cut while <proceed/> is awaited
+		st = c10Rebind(c, clientHeader+"<stream:features><starttls xmlns='urn:ietf:params:xml:ns:xmpp-tls'><required/></starttls>"+c10Mechanisms+"</stream:features>", false, false)
+		st.doesTLS = true
+	case "resumed": // authenticated; cut while the answer to <resume/> is awaited
+		st = c10Rebind(c, c10Authenticated, secure, false)
+	default: // "features": the server's stream header, then nothing
+		st = c10Rebind(c, clientHeader, secure, false)
+	}
+	if e := c10ConnectWithin(c, st); e == nil {
+		err = fmt.Errorf("a connection cut during the negotiation (%s) gave an established session", mode)
+	}
+	return
+}
+
+// c10Resume: a connection attempt on which the server resumes the session the client asks for.
+func c10Resume(c *xmpp.Client, secure bool) (st *stubTransport, err error) {
+	st = c10Rebind(c, c10Authenticated+"<resumed xmlns='urn:xmpp:sm:3' previd='sm' h='0'/>", secure, true)
+	err = c10ConnectWithin(c, st)
+	if c10Wrote(st, "resume") == 0 {
+		err = fmt.Errorf("the client did not ask to resume the session on which its stanzas are held (%v)", err)
+	}
+	if err == nil {
+		go xmpp.VerifRecv(c, make(chan struct{}))
+	}
 	return
 }
 
@@ -408,24 +539,48 @@ func c10Packet(o c10Op) stanza.Packet {
 		return &stanza.SMRequest{}
 	case 4:
 		return &stanza.SMAnswer{H: uint(o.H)}
+	case 5:
+		return nil
 	}
 	m := stanza.NewMessage(stanza.Attrs{To: "peer@localhost", Id: "m"})
 	m.Body = o.Body
 	return m
 }
 
-// c10SendKind: what a Send op hands over (0 stanza, 1 acknowledgement request, 2 acknowledgement answer), value or pointer alike.
+// c10SendKind: what a Send op hands over (0 stanza, 1 acknowledgement request, 2 acknowledgement answer, 5 nothing the
+// server counts), value or pointer alike.
 func c10SendKind(o c10Op) int {
 	switch o.Kind {
 	case 1, 3:
 		return 1
 	case 2, 4:
 		return 2
+	case 5:
+		return 5
 	}
 	return 0
 }
 
-// c10RawKind: the harness's own reading of a raw string (canon.go): 1 = one {urn:xmpp:sm:3}r, 2 = one {urn:xmpp:sm:3}a, 0 = anything else (a stanza).
+// c10IsStanza: the harness's own reading (canon.go) of "what the server counts": the first element of the string is a
+// message, presence or iq of the stream's namespace (jabber:client, or no namespace of its own).
+func c10IsStanza(body string) bool {
+	ns, err := parseCanon([]byte(body))
+	if err != nil || len(ns) == 0 {
+		return false
+	}
+	n := ns[0].Name
+	if n.Space != "" && n.Space != "jabber:client" {
+		return false
+	}
+	return n.Local == "message" || n.Local == "presence" || n.Local == "iq"
+}
+
+// raw strings that are not stanzas (written, never held or numbered) and further spellings of stanzas
+var c10RawOther = []string{" ", "\n", "", "<inactive xmlns='urn:xmpp:csi:0'/>", "<active xmlns='urn:xmpp:csi:0'/>", "<message xmlns='jabber:server' id='f'/>", "<x:message xmlns:x='urn:foreign' id='f'/>", "<enable xmlns='urn:xmpp:sm:3'/>", "<ping xmlns='urn:xmpp:ping'/>"}
+var c10RawStanza = []string{"<presence/>", "<iq type='get' id='q'/>", "<message xmlns='jabber:client' id='c'/>", " \n<message id='lead'/>", "<presence type='unavailable'><status>bye</status></presence>",
+	"<message id='t1'/><message id='t2'/>" /* one string, one entry: the code numbers a raw string once (disclosed) */}
+
+// c10RawKind: the harness's own reading of a raw string (canon.go): 1 = one {urn:xmpp:sm:3}r, 2 = one {urn:xmpp:sm:3}a, 0 = a stanza, 5 = anything else.
 func c10RawKind(body string) int {
 	if isSMRequest([]byte(body)) {
 		return 1
@@ -433,7 +588,10 @@ func c10RawKind(body string) int {
 	if _, ok := smAnswerH([]byte(body)); ok {
 		return 2
 	}
-	return 0
+	if c10IsStanza(body) {
+		return 0
+	}
+	return 5
 }
 
 const c10Presence = "<presence/>"
@@ -449,7 +607,8 @@ func c10Canon(s string) string { return canonOrRaw(s) }
 // pushes are observed as one step: the writes in the order the transport received them, the queue afterwards.
 func (c10) Run(inp interface{}) Sx {
 	in := inp.(c10In)
-	c, st, router, seen, err := c10Client(in.Connect, in.Resume, in.NoID)
+	secure := in.secure()
+	c, st, router, seen, err := c10Client(in.Connect, in.Resume, in.NoID, secure)
 	feeds := []chan []byte{st.feed}
 	closeFeeds := func() {
 		if c.Session == nil {
@@ -470,7 +629,26 @@ func (c10) Run(inp interface{}) Sx {
 	// (only a session that has an id: without one there is nothing to resume with and the client binds at once)
 	const holding = true
 	hadID := !in.NoID
+	live := true // a connection with a running receive loop
 	var steps []Sx
+	// stop: the history cannot go on (the observations so far are kept and judged)
+	stop := func(msg string) Sx {
+		closeFeeds()
+		return LS(append(steps, L(SBytes("stopped"), SBytes(msg))))
+	}
+	// the receive loop of the current connection takes that connection's decoder when it starts: make sure it has
+	// (it answers a request of the server) before the transport is handed to the next connection
+	settle := func() bool {
+		if !live {
+			return true
+		}
+		before := len(st.snapshotWrites())
+		st.feed <- []byte("<r xmlns='urn:xmpp:sm:3'/>")
+		for k := 0; k < 40000 && len(st.snapshotWrites()) == before; k++ {
+			time.Sleep(50 * time.Microsecond)
+		}
+		return len(st.snapshotWrites()) != before
+	}
 	snapshot := func() Sx {
 		ws := st.snapshotWrites()
 		var wx []Sx
@@ -486,7 +664,9 @@ func (c10) Run(inp interface{}) Sx {
 		}
 		seen = len(ws)
 		var qx []Sx
-		if q := c.Session.SMState.UnAckQueue; q != nil { // nil: a session on which stream management was not enabled holds nothing
+		if c.Session == nil {
+			// no session object: nothing is held any more
+		} else if q := c.Session.SMState.UnAckQueue; q != nil { // nil: a session on which stream management was not enabled holds nothing
 			q.RLock()
 			for _, e := range q.Uslice {
 				qx = append(qx, L(Zi(e.Id), SBytes(c10Canon(e.Stz))))
@@ -573,6 +753,9 @@ func (c10) Run(inp interface{}) Sx {
 			if o.Big {
 				h += 1 << 63
 			}
+			if c.Session == nil {
+				return stop("an acknowledgement arrives and the client has no session object (Router.route reads it)")
+			}
 			armed := 0
 			if o.FailAt > 0 {
 				st.mu.Lock()
@@ -586,28 +769,40 @@ func (c10) Run(inp interface{}) Sx {
 				delete(st.writeFailAt, armed) // not reached: the retransmission had fewer writes
 				st.mu.Unlock()
 			}
-		case "session":
-			// the receive loop of the current connection takes that connection's decoder when it starts: make sure
-			// it has (it answers a request of the server) before the transport is handed to the next connection
-			before := len(st.snapshotWrites())
-			st.feed <- []byte("<r xmlns='urn:xmpp:sm:3'/>")
-			for k := 0; k < 40000 && len(st.snapshotWrites()) == before; k++ {
-				time.Sleep(50 * time.Microsecond)
+		case "attempt":
+			if !settle() {
+				return stop("the receive loop does not answer")
 			}
-			if len(st.snapshotWrites()) == before {
-				closeFeeds()
-				return L(SBytes("setup-failed"), SBytes("the receive loop does not answer"))
+			st2, err := c10FailedAttempt(c, o.Mode, secure)
+			if err != nil {
+				return stop(err.Error())
 			}
-			st2, skip, err := c10NewSession(c, hadID, holding, o.Resume, o.NoID)
+			st, seen, live = st2, len(st2.snapshotWrites()), false
+		case "resume":
+			if !settle() {
+				return stop("the receive loop does not answer")
+			}
+			st2, err := c10Resume(c, secure)
 			if st2.feed != nil {
 				feeds = append(feeds, st2.feed)
 			}
 			if err != nil {
-				closeFeeds()
-				return L(SBytes("setup-failed"), SBytes("new connection: "+err.Error()))
+				return stop("resumption: " + err.Error())
+			}
+			st, seen, live = st2, len(st2.snapshotWrites()), true
+		case "session":
+			if !settle() {
+				return stop("the receive loop does not answer")
+			}
+			st2, skip, err := c10NewSession(c, hadID, holding, o.Resume, o.NoID, secure)
+			if st2.feed != nil {
+				feeds = append(feeds, st2.feed)
+			}
+			if err != nil {
+				return stop("new connection: " + err.Error())
 			}
 			hadID = !o.NoID
-			st, seen = st2, skip
+			st, seen, live = st2, skip, true
 		case "peer_r":
 			// the server asks for an acknowledgement: Client.recv writes <a/> through Client.Send
 			before := len(st.snapshotWrites())
@@ -686,8 +881,15 @@ func (p c10) InputObs(inp interface{}, obs Sx) Sx {
 		}
 		ops = append(ops, L(Z(9), LS(ds)))
 	}
+	closed := false // between a failed attempt and the next established session every write is refused
 	for _, o := range in.Ops {
 		switch o.Op {
+		case "attempt":
+			ops = append(ops, L(Z(11)))
+			closed = true
+		case "resume":
+			ops = append(ops, L(Z(12)))
+			closed = false
 		case "send":
 			data, _ := xml.Marshal(c10Packet(o))
 			if o.Fail {
@@ -702,6 +904,9 @@ func (p c10) InputObs(inp interface{}, obs Sx) Sx {
 				ops = append(ops, L(Z(1), Zi(c10RawKind(o.Body)), SBytes(c10Canon(o.Body))))
 			}
 		case "ack":
+			if closed {
+				o.FailAt = 1
+			}
 			switch {
 			case o.FailAt > 0 && o.Big:
 				ops = append(ops, L(Z(7), Zi(o.H), Zi(o.FailAt-1)))
@@ -714,6 +919,7 @@ func (p c10) InputObs(inp interface{}, obs Sx) Sx {
 			}
 		case "session":
 			ops = append(ops, L(Z(5), Z(c10B(c10Granted(o.Resume)))))
+			closed = false
 		case "peer_r":
 			// no stanza is ever received in these histories: the answer reports h=0
 			ops = append(ops, L(Z(0), Z(2), SBytes(c10Canon(`<a xmlns="urn:xmpp:sm:3" h="0"></a>`))))
@@ -850,14 +1056,29 @@ func (c10) Oracle(inp interface{}, obs Sx) (string, string) {
 			return "acknowledgements behind a stalled retransmission never finished: " + obs.String(), "stall-deadlock"
 		}
 	}
+	closed := false // between a failed attempt and the next established session the client writes nothing
 	for oi, o := range in.Ops {
 		if idx+oi >= len(steps) {
 			return "missing observation", "shape"
+		}
+		if st := steps[idx+oi]; len(st.L) == 2 && st.L[0].K == "s" {
+			what := o.Op
+			if o.Op == "attempt" {
+				what += "-" + o.Mode
+			}
+			return fmt.Sprintf("op %d (%s): the history stops here: %s", oi, what, string(bytesOf(st.L[1]))), "stopped-" + what
 		}
 		ws, qx := steps[idx+oi].L[0].L, steps[idx+oi].L[1].L
 		var wantWire []string // "\x00R" = <r/>
 		what := o.Op
 		switch o.Op {
+		case "attempt":
+			// the attempt fails; the session is still alive on the server: everything held stays held
+			what = "attempt-" + o.Mode
+			closed = true
+		case "resume":
+			// the session goes on: same stanzas, same numbers; nothing is written by the resumption itself
+			closed = false
 		case "send":
 			data, _ := xml.Marshal(c10Packet(o))
 			k := c10SendKind(o)
@@ -915,13 +1136,18 @@ func (c10) Oracle(inp interface{}, obs Sx) (string, string) {
 					wantWire = wantWire[:o.FailAt-1]
 				}
 			}
+			if closed {
+				what += "-while-reconnecting"
+				wantWire = nil
+			}
 		case "session":
 			// a new session: nothing of the old one is held on it, numbering starts again
+			closed = false
 			sent, acked = nil, 0
 			ungranted = ungranted || !c10Granted(o.Resume)
 		}
 		// held = sent[acked:], numbered acked+1...
-		if ungranted && len(qx) == 0 && len(sent)-acked > 0 {
+		if ungranted && (o.Op == "send" || o.Op == "raw") && len(qx) == 0 && len(sent)-acked > 0 {
 			return fmt.Sprintf("op %d (%s): stream management is enabled on the session (an <enabled/> did not grant resumption, which is all it refuses), %d stanzas sent on it, %d acknowledged, but nothing is held", oi, what, len(sent), acked), "held-unresumable-" + what
 		}
 		if len(qx) != len(sent)-acked {
@@ -1027,6 +1253,12 @@ func (c10) Key(inp interface{}) (string, bool) {
 		case "peer_r":
 			b.WriteString("p")
 			hist("op:peer_r")
+		case "attempt":
+			b.WriteString("F" + o.Mode[:1])
+			hist(fmt.Sprintf("op:attempt-%s held=%v", o.Mode, sent > acked))
+		case "resume":
+			b.WriteString("R")
+			hist("op:resume")
 		case "session":
 			g := c10Granted(o.Resume)
 			ungranted = ungranted || !g
